@@ -96,6 +96,68 @@ theorem snap_parse_canonical (s : List Char) (i : Nat) (h : parseSnap s = some i
     rw [fmtSnap, this, ← hdrop, List.take_append_drop]
   · exact absurd h (by simp)
 
+theorem take_takeWhile_length {α : Type} (p : α → Bool) (r : List α) : r.take (r.takeWhile p).length = r.takeWhile p := by
+  induction r with
+  | nil => rfl
+  | cons x xs ih =>
+    by_cases hx : p x = true
+    · simp [hx, ih]
+    · simp [hx]
+
+/-- **A parsed segment name of the canonical length (25 characters) is the print of its position**:
+among the names 0.3.x wrote (8-digit offsets) no two denote one position. -/
+theorem seg_parse_canonical (s : List Char) (i o : Nat) (h : parseSeg s = some (i, o)) (hlen : s.length = 25) :
+    s = fmtSeg i o := by
+  unfold parseSeg at h
+  dsimp only at h
+  split at h
+  · rename_i r hr
+    split at h
+    · rename_i hc
+      obtain ⟨ha8, _, hb8, hb16, hsuf⟩ := hc
+      split at h
+      · rename_i a b hpa hpb
+        split at h
+        · simp only [Option.some.injEq, Prod.mk.injEq] at h
+          obtain ⟨rfl, rfl⟩ := h
+          have hs : s = s.take 8 ++ s.drop 8 := (List.take_append_drop 8 s).symm
+          have hr2 : r = r.takeWhile isHex ++ segSuffix := by
+            have := (List.take_append_drop (r.takeWhile isHex).length r).symm
+            rw [take_takeWhile_length, hsuf] at this
+            exact this
+          have hsl : segSuffix.length = 8 := by decide
+          have hrl : r.length = (r.takeWhile isHex).length + 8 := by
+            have := congrArg List.length hr2
+            simp only [List.length_append, hsl] at this
+            exact this
+          have hdl : (s.drop 8).length = r.length + 1 := by rw [hr]; simp
+          have hbl : (r.takeWhile isHex).length = 8 := by
+            have h1 : (s.drop 8).length = s.length - 8 := List.length_drop
+            omega
+          have fa := hexFixed_of_parseHex _ _ hpa
+          have fb := hexFixed_of_parseHex _ _ hpb
+          rw [ha8] at fa
+          rw [hbl] at fb
+          have ba : a < 16 ^ 8 := by
+            have := parseHex_hexFixed 8 a
+            rw [fa, hpa] at this
+            simp only [Option.some.injEq] at this
+            rw [this]; exact Nat.mod_lt _ (by decide)
+          have bb : b < 16 ^ 8 := by
+            have := parseHex_hexFixed 8 b
+            rw [fb, hpb] at this
+            simp only [Option.some.injEq] at this
+            rw [this]; exact Nat.mod_lt _ (by decide)
+          have la : hexLen a ≤ 8 := hexLen_le (k := 8) (by decide) (by omega)
+          have lb : hexLen b ≤ 8 := hexLen_le (k := 8) (by decide) (by omega)
+          have ea : fmt08x a = s.take 8 := by unfold fmt08x; rw [Nat.max_eq_left la, fa]
+          have eb : fmt08x b = r.takeWhile isHex := by unfold fmt08x; rw [Nat.max_eq_left lb, fb]
+          rw [fmtSeg, ea, eb, ← hr2, ← hr, List.take_append_drop]
+        · exact absurd h (by simp)
+      · exact absurd h (by simp)
+    · exact absurd h (by simp)
+  · exact absurd h (by simp)
+
 /-- The offset group admits 8–16 digits, so a name with a zero-padded offset longer than eight digits
 parses to the same position as the canonical name: parsing is not injective on accepted names (the
 listing can then hold one position twice; 0.3.x never wrote such names). -/
